@@ -276,7 +276,15 @@ func sameOutcome(q *h.Query, a, b qOutcome) string {
 		}
 		return ""
 	}
-	return h.DiffRows(a.res.Rows, b.res.Rows, a.res.Fields)
+	if d := h.DiffRows(a.res.Rows, b.res.Rows, a.res.Fields); d != "" {
+		return d
+	}
+	// same rows: where ORDER BY decides the order, the sequences of ORDER BY key
+	// values must agree position by position (ties may differ in other columns)
+	if d := orderKeysEqual(q, a.res, b.res); d != "" {
+		return "same rows, different order: " + d
+	}
+	return ""
 }
 
 func runC03(c *C03Case) error {
